@@ -61,7 +61,7 @@ MANIFEST = {
             "design_ref": "5.C11", "note": _NOTE, "technique": _TECH, "engine": "coq-gated"},
     "C17": {"text": "theorems expired_gone (after a successful Process at T no group with expiry < T remains), expire_success / expired_emitted (exactly the "
                     "expired groups were emitted, once each, oldest first, through the Broker or dropped without one), flushall_empties / close_empties "
-                    "(nothing remains; every group emitted exactly once in order), memory_bound — for every state, oracle and clock; tie: the C11 histories "
+                    "(nothing remains; every group emitted exactly once in order), memory_bound — for every state, oracle and clock; groups_sorted_by_expiry (list order = expiry order when group-opening clock readings never decrease); tie: the C11 histories "
                     "with 0..5 simultaneously open groups, clock advances on/below/above the expiry boundary, FlushAll/Close at every position; VerifGated "
                     "compared with the model after every call plus the observation-only 'nothing lingers' oracle",
             "design_ref": "5.C17", "note": _NOTE, "technique": _TECH, "engine": "coq-gated"},
